@@ -456,10 +456,17 @@ def run_simple(case, acc, order):
             _write_tsv_simple(path, 'f', data)
             back = _read_tsv_simple(path)
             # the model-level reader of the same file: {field: {id: value}}, every id present
-            from phylib.io.model import load_metadata
+            from phylib.io.model import load_metadata, save_metadata
             md = load_metadata(path)
             if data and not (isinstance(md, dict) and list(md) == ['f'] and deep_equal(md['f'], data)):
                 back = ('load_metadata', md)
+            # the model-level writer: a table written over an older one of the same field replaces it
+            path2 = d / ('cluster_h.' + case['ext'])
+            save_metadata(path2, 'f', {i: 'old' for i in (0, 3, 10, 77)})
+            save_metadata(path2, 'f', data)
+            back2 = _read_tsv_simple(path2)
+            if not (isinstance(back2, tuple) and back2[0] == 'f' and deep_equal(back2[1], data)):
+                back = ('save_metadata-over-older-table', back2)
         except Exception as e:
             back = e
     sig = None
